@@ -272,7 +272,9 @@ def _mean_plane(V):
     st.ghost[("np", "linalg.svd")] = svd
     V.witness(lambda ev: {"op": "mean_plane", "signature": "mean_plane"})
     V.cover()
-    out = V.call("molli.math.plane:mean_plane", [ListV([ListV(list(p)) for p in pts])])
+    given = V.choose(["float-array", "nested-list"], "argument")
+    arg = NP.mk([list(p) for p in pts], "float") if given == "float-array" else ListV([ListV(list(p)) for p in pts])
+    out = V.call("molli.math.plane:mean_plane", [arg])
     ok = out.returned and len(calls) == 1 and isinstance(out.value, NdArr) and tuple(out.value.tail) == (3,)
     V.ensure("plane/one-decomposition-one-3-vector", z3.BoolVal(bool(ok)))
     if not ok:
@@ -290,4 +292,11 @@ def _mean_plane(V):
     V.ensure("plane/decomposes-the-centred-points", centred)
     V.ensure("plane/returns-the-singular-vector-of-the-smallest-singular-value",
              z3.BoolVal(False) if normal is None else z3.And(*[to_z3(out.value.data[k], "real") == to_z3(normal[k], "real") for k in range(3)]))
-    V.ensure("plane/input-points-not-modified", z3.BoolVal(True))
+    # the caller's array is read, never written (callers go on using it, e.g. for the centroid of the same neighbours)
+    now = arg.data if given == "float-array" else [list(r.items) for r in arg.items]
+    V.ensure("plane/input-points-not-modified", z3.And(*[to_z3(now[i][k], "real") == to_z3(pts[i][k], "real") for i in range(n) for k in range(3)]))
+
+
+# new hydrogens are attached with connect/append_bond: the C05 contract of append_bond is part of this claim
+from contracts import C05_alignment as C05
+P.include(C05.P, ["append_bond"], why="hydrogens are bonded through it; it must not adopt atoms the structure already has")
